@@ -273,7 +273,8 @@ def _interval_rule(ctx, cls, op, pname, var, iv, accept, w, ent):
         ok = False
     ctx.ob("G-INTERVAL", "%s.%s(%s) accepts exactly %s" % (cls_short(cls.qual), op, pname, fmt(iv)), ok, where=w,
            function=ent.func.qual, construct="%s.%s/%s/interval" % (cls.qual, op, pname),
-           msg="%s() accepts %s for %s, the property says %s" % (op, fmt((lo, hi)) if accept else "nothing", pname, fmt(iv)))
+           msg="%s() accepts %s for %s, the property says %s" % (op, fmt((lo, hi)) if accept else "nothing", pname, fmt(iv)),
+           accepted=(lo, hi) if accept else None, stated=iv, argument=pname)
 
 
 def _entails_out_of_range(facts, ranges):
@@ -460,5 +461,6 @@ def _subscribe_rules(ctx, cls, ent, accept, reject, w):
             ok_all = False
     ctx.ob("G-INTERVAL", "%s.subscribe(qos) accepts exactly [0, 2] per topic" % cls_short(cls.qual), ok_all, where=w,
            function=ent.func.qual, construct="%s.subscribe/qos/interval" % cls.qual,
-           msg="subscribe() accepts per-topic QoS %s, the property says [0, 2]" % (fmt(got) if got else "unchecked"))
+           msg="subscribe() accepts per-topic QoS %s, the property says [0, 2]" % (fmt(got) if got else "unchecked"),
+           accepted=got if got else (-INF, INF), stated=(0, 2), argument="qos")
     _spurious(ctx, cls, "subscribe", reject, {}, [], w, ent, type_checks=True)
